@@ -65,6 +65,22 @@ def load_limited_to(limited_to):
     return GeomCoverage(geom, srs, clip=True)
 
 
+def load_limited_to_all(*limited_tos):
+    """
+    Load all given `limited_to` dicts (``None``/empty ones are ignored) and
+    return the intersection as one clipping coverage, or ``None`` if there
+    is no limit at all.
+    """
+    coverages = [load_limited_to(lt) for lt in limited_tos if lt]
+    if not coverages:
+        return None
+    result = coverages[0]
+    for other in coverages[1:]:
+        geom = result.geom.intersection(other.transform_to(result.srs).geom)
+        result = GeomCoverage(geom, result.srs, clip=True)
+    return result
+
+
 class MultiCoverage(object):
     clip = False
     """Aggregates multiple coverages"""
